@@ -34,6 +34,7 @@ struct CModel {
   long onWriteSeen = 0, drains = 0; bool backlogWasPositive = false;
   long onReadWhileSuspended = 0;
   int readBudget = 0;            // bytes the next onRead callbacks may read (0 = leave it unread)
+  long writeInCallback[2] = {0, 0};  // size of the write that the next onWrite / onRead callback performs itself
 };
 
 struct H {
@@ -59,22 +60,25 @@ struct H {
       if (c[i].peerGot > c[i].accepted) fail("stream:more-than-accepted", "the peer received more bytes than were accepted");
     }
   }
+  void doWrite(int i, long len, const char* when) {
+    CModel& m = c[i];
+    std::vector<unsigned char> data((size_t)len);
+    for (long k = 0; k < len; ++k) data[(size_t)k] = pat(i, m.accepted + k);
+    usize postponed = 12345; long before = backlog(i);
+    bool ok = m.cl->write(data.data(), (usize)len, &postponed);
+    if (!ok) { m.closed = true; ctx->label("write_failed"); return; }
+    m.accepted += len;
+    long b = backlog(i);
+    if ((long)postponed != b) { char d[200]; snprintf(d, sizeof d, "write(%ld) on client %d reported postponed = %ld, accepted - handed to the system = %ld", len, i, (long)postponed, b); fail("backlog:postponed", d); }
+    if (before > 0) ctx->label("write_while_backlog"); if (b > 0) ctx->label("backlog_created");
+    checkBacklog(i, when);
+  }
   void doOp(const Op& op) {
     int i = (int)(((op.a[0] % NC) + NC) % NC); long n = op.a[1] < 0 ? -op.a[1] : op.a[1];
     const std::string& nm = op.name; CModel& m = c[i];
     if (m.closed) { ctx->count("skipped"); return; }
-    if (nm == "write") {
-      long len = 1 + n % 5000; std::vector<unsigned char> data((size_t)len);
-      for (long k = 0; k < len; ++k) data[(size_t)k] = pat(i, m.accepted + k);
-      usize postponed = 12345; long before = backlog(i);
-      bool ok = m.cl->write(data.data(), (usize)len, &postponed);
-      if (!ok) { m.closed = true; ctx->label("write_failed"); return; }
-      m.accepted += len;
-      long b = backlog(i);
-      if ((long)postponed != b) { char d[200]; snprintf(d, sizeof d, "write(%ld) on client %d reported postponed = %ld, accepted - handed to the system = %ld", len, i, (long)postponed, b); fail("backlog:postponed", d); }
-      if (before > 0) ctx->label("write_while_backlog"); if (b > 0) ctx->label("backlog_created");
-      checkBacklog(i, "after write");
-    }
+    if (nm == "write") doWrite(i, 1 + n % 5000, "after write");
+    else if (nm == "wincb") { m.writeInCallback[op.a[2] & 1] = 1 + n % 5000; }   // the next onWrite (0) / onRead (1) callback of this client writes
     else if (nm == "suspend") { m.cl->suspend(); m.suspended = true; if (!m.cl->isSuspended()) fail("suspend:flag", "isSuspended() is false after suspend()"); ctx->label("suspend"); }
     else if (nm == "resume") { m.cl->resume(); m.suspended = false; if (m.cl->isSuspended()) fail("suspend:flag", "isSuspended() is true after resume()"); }
     else if (nm == "peerread") { peerRead(i, 1 + n % 6000); if (backlog(i) > 0) ctx->label("peer_reads_with_backlog"); }
@@ -111,6 +115,12 @@ void ClientCb::onRead() {
   CModel& m = h->c[id];
   if (m.suspended) { ++m.onReadWhileSuspended; h->fail("suspend:onRead-while-suspended", "onRead was delivered to client " + std::to_string(id) + " between suspend() and resume()"); }
   h->ctx->label("onRead");
+  if (m.writeInCallback[1] > 0 && !m.closed) {
+    long len = m.writeInCallback[1]; m.writeInCallback[1] = 0;
+    h->doWrite(id, len, "after write inside onRead");
+    h->ctx->label(h->backlog(id) > 0 ? "write_inside_onRead_creates_backlog" : "write_inside_onRead");
+    if (m.closed) return;
+  }
   if (m.readBudget <= 0) {   // the callback does not read now: suspend to avoid a busy loop, the driver resumes later through its script
     m.cl->suspend(); m.suspended = true; return;
   }
@@ -127,6 +137,11 @@ void ClientCb::onWrite() {
   if (b != 0) { char d[160]; snprintf(d, sizeof d, "onWrite delivered to client %d while %ld accepted bytes are not yet handed to the system", id, b); h->fail("onWrite:backlog-not-empty", d); }
   if (!m.backlogWasPositive) h->fail("onWrite:without-backlog", "onWrite delivered although there was no backlog since the last onWrite");
   m.backlogWasPositive = false; ++m.onWriteSeen; h->ctx->label("onWrite_after_drain");
+  if (m.writeInCallback[0] > 0 && !m.closed) {
+    long len = m.writeInCallback[0]; m.writeInCallback[0] = 0;
+    h->doWrite(id, len, "after write inside onWrite");
+    h->ctx->label(h->backlog(id) > 0 ? "write_inside_onWrite_creates_backlog" : "write_inside_onWrite");
+  }
 }
 void ClientCb::onClosed() { h->c[id].closed = true; h->ctx->label("onClosed"); }
 }  // namespace
@@ -149,9 +164,9 @@ void pbt_generate(Rng& r, int size, Case& c) {
     }
     c.add("fault", kind, v);
   }
-  static const char* names[] = {"write", "suspend", "resume", "peerread", "peerdrain", "peerwrite", "query", "leave"};
-  static const int w[] = {40, 6, 8, 16, 6, 8, 10, 4};
-  for (int k = 0; k < n; ++k) { int o = r.weighted(w, 8); c.add(names[o], (long)r.below(NC), (long)r.below(100000), (long)r.below(1000)); }
+  static const char* names[] = {"write", "suspend", "resume", "peerread", "peerdrain", "peerwrite", "query", "leave", "wincb"};
+  static const int w[] = {40, 6, 8, 16, 6, 8, 10, 4, 8};
+  for (int k = 0; k < n; ++k) { int o = r.weighted(w, 9); c.add(names[o], (long)r.below(NC), (long)r.below(100000), (long)r.below(1000)); }
 }
 
 bool pbt_nontrivial(const Ctx& ctx) { return ctx.has("backlog_created") && ctx.has("write_while_backlog") && ctx.has("onWrite_after_drain"); }
